@@ -11,6 +11,7 @@
 #include <string.h>
 
 extern long mc_keys_live(void);
+#define MODEL (!mc_is_free_running())      /* model / allocator introspection is only available under the scheduler runtime */
 
 /* runs once, single-threaded, before any execution is forked: forces the library's lazily created internal TLS key into
  * existence so that per-scenario block/key accounting starts from a settled baseline */
@@ -36,10 +37,10 @@ static void h_join(int argc, char **argv)
     rc = p_uthread_join(t);
     if (rc != exit_code) mc_fail("C05", use_return ? "join/code-after-return" : "join/exit-code", "p_uthread_join returned %d, the thread %s %d", rc, use_return ? "function returned, expected" : "called p_uthread_exit with", exit_code);
     if (shared_var != 4711) mc_fail("C05", "join/returned-before-thread-finished", "join returned but the thread's write is not there (value %ld)", shared_var);
-    if (mc_block_state(t) != 1) mc_fail("C05", "refs/handle-freed-while-referenced", "handle released although the creator still holds its reference");
+    if (MODEL && mc_block_state(t) != 1) mc_fail("C05", "refs/handle-freed-while-referenced", "handle released although the creator still holds its reference");
     p_uthread_unref(t);
-    if (mc_block_state(t) != 0) mc_fail("C05", "refs/handle-not-released", "handle not released after join + the creator's unref (thread finished, all references dropped)");
-    if (mc_blocks_outstanding() != base) mc_fail("C05", "refs/leak", "%ld heap block(s) still allocated after the thread was joined and unreferenced", mc_blocks_outstanding() - base);
+    if (MODEL && mc_block_state(t) != 0) mc_fail("C05", "refs/handle-not-released", "handle not released after join + the creator's unref (thread finished, all references dropped)");
+    if (MODEL && mc_blocks_outstanding() != base) mc_fail("C05", "refs/leak", "%ld heap block(s) still allocated after the thread was joined and unreferenced", mc_blocks_outstanding() - base);
     mc_nontrivial(0);
     mc_outcome("rc=%d", rc);
 }
@@ -65,15 +66,15 @@ static void h_refs(int argc, char **argv)
     for (i = 0; script[i]; i++) {
         if (refs <= 0) mc_fail("C05", "bad-script", "script uses the handle after dropping the creator's last reference");
         if (script[i] == 'R') { p_uthread_ref(t); refs++; }
-        else if (script[i] == 'U') { refs--; if (refs > 0 && mc_block_state(t) != 1) mc_fail("C05", "refs/handle-freed-while-referenced", "handle already released although %d reference(s) of the creator remain", refs + 1); p_uthread_unref(t); }
+        else if (script[i] == 'U') { refs--; if (MODEL && refs > 0 && mc_block_state(t) != 1) mc_fail("C05", "refs/handle-freed-while-referenced", "handle already released although %d reference(s) of the creator remain", refs + 1); p_uthread_unref(t); }
         else if (script[i] == 'J') { if (p_uthread_join(t) != 0) mc_fail("C05", "join/code-after-return", "join returned non-zero for a thread that returned"); }
-        if (refs > 0 && mc_block_state(t) != 1) mc_fail("C05", "refs/handle-freed-while-referenced", "handle released although the creator still holds %d reference(s)", refs);
+        if (MODEL && refs > 0 && mc_block_state(t) != 1) mc_fail("C05", "refs/handle-freed-while-referenced", "handle released although the creator still holds %d reference(s)", refs);
     }
     if (refs != 0) mc_fail("C05", "bad-script", "script must drop all creator references");
     mc_wait_all();
-    if (mc_block_state(t) != 0) mc_fail("C05", "refs/handle-not-released", "all references dropped and the thread finished, but the handle was not released");
-    if (mc_block_free_count(t) != 1) mc_fail("C05", "refs/released-more-than-once", "handle released %ld times", mc_block_free_count(t));
-    if (mc_blocks_outstanding() != base) mc_fail("C05", "refs/leak", "%ld heap block(s) still allocated at the end", mc_blocks_outstanding() - base);
+    if (MODEL && mc_block_state(t) != 0) mc_fail("C05", "refs/handle-not-released", "all references dropped and the thread finished, but the handle was not released");
+    if (MODEL && mc_block_free_count(t) != 1) mc_fail("C05", "refs/released-more-than-once", "handle released %ld times", mc_block_free_count(t));
+    if (MODEL && mc_blocks_outstanding() != base) mc_fail("C05", "refs/leak", "%ld heap block(s) still allocated at the end", mc_blocks_outstanding() - base);
     mc_nontrivial(0);
     mc_outcome("ok");
 }
@@ -131,7 +132,7 @@ static void h_tls(int argc, char **argv)
         if (destroyed_of(b + 2) != 1) mc_fail("C05", "tls/exit-value-destroy-count", "non-NULL value left at thread exit destroyed %d times (expected exactly once)", destroyed_of(b + 2));
     }
     if (null_destroys_now()) mc_fail("C05", "tls/notifier-called-with-null", "the destroy notifier was called %d time(s) with NULL (it must run only for non-NULL stored values)", null_destroys_now());
-    if (mc_keys_live() != keys0 + 1) mc_fail("C05", "tls/native-keys", "%ld native TLS keys allocated for one PUThreadKey (the loser of the creation race must delete its key)", mc_keys_live() - keys0);
+    if (MODEL && mc_keys_live() != keys0 + 1) mc_fail("C05", "tls/native-keys", "%ld native TLS keys allocated for one PUThreadKey (the loser of the creation race must delete its key)", mc_keys_live() - keys0);
     p_uthread_local_free(key);
     mc_nontrivial(0);
     mc_outcome("ok");
@@ -146,7 +147,7 @@ static void *foreign_body(void *arg)
     again = p_uthread_current();
     if (again != me) mc_fail("C05", "current-not-stable", "p_uthread_current returned two different handles in one thread");
     p_uthread_ref(me); mc_step(); p_uthread_unref(me);
-    if (mc_block_state(me) != 1) mc_fail("C05", "refs/handle-freed-while-referenced", "foreign thread's handle released while the thread is running");
+    if (MODEL && mc_block_state(me) != 1) mc_fail("C05", "refs/handle-freed-while-referenced", "foreign thread's handle released while the thread is running");
     return me;
 }
 static void h_foreign(int argc, char **argv)
@@ -154,7 +155,7 @@ static void h_foreign(int argc, char **argv)
     long base = mc_blocks_outstanding(); int a, b; (void)argc; (void)argv;
     a = mc_thread_create(foreign_body, NULL); b = mc_thread_create(foreign_body, NULL);
     mc_thread_join(a); mc_thread_join(b);
-    if (mc_blocks_outstanding() != base) mc_fail("C05", "refs/leak", "%ld heap block(s) of foreign threads still allocated after they exited", mc_blocks_outstanding() - base);
+    if (MODEL && mc_blocks_outstanding() != base) mc_fail("C05", "refs/leak", "%ld heap block(s) of foreign threads still allocated after they exited", mc_blocks_outstanding() - base);
     mc_nontrivial(0);
     mc_outcome("ok");
 }
